@@ -31,6 +31,7 @@ func main() {
 	runtimes := flag.Bool("runtimes", false, "replica mode: runtimes genesis")
 	upgRuns := flag.Int("upgruns", 0, "how many of the standard histories (the first ones) contain a consensus upgrade (c01)")
 	upgradeF := flag.Bool("upgrade", false, "replica mode: upgrade backend")
+	noDebugFlag := flag.Bool("nodebugflag", false, "replica mode: run without debug.dont_blame_oasis")
 	tie := flag.Bool("tie", false, "replica mode: election-tie genesis")
 	idx := flag.Int("idx", 0, "replica mode: configuration index")
 	flag.Parse()
@@ -45,7 +46,7 @@ func main() {
 		}
 		c01Main(*seed, *out, *blocks, *runs, *replay, *noBg, *tieRuns, *tieBlocks, *procRuns, *rtRuns, *upgRuns)
 	case "replica":
-		replicaMain(*seed, *tie, *runtimes, *upgradeF, *idx, !*noBg)
+		replicaMain(*seed, *tie, *runtimes, *upgradeF, *idx, !*noBg, *noDebugFlag)
 	case "smoke2":
 		smoke2(*seed)
 	default:
